@@ -1435,11 +1435,19 @@ pub fn generate(seed: u64, profile: &GenProfile) -> Schema {
         for mi in 0..nm {
             let oneway = mi == 1 || (mi > 1 && g.rng.chance(1, 6));
             let ret = if oneway || g.rng.chance(1, 4) { None } else { Some(svc_ty(&mut g, &mut arg_pool)) };
-            let na = g.rng.usize_below(4);
+            // (the first method always has two or three arguments with such ids, the third is reversed)
+            let na = if mi == 0 { 2 + g.rng.usize_below(2) } else { g.rng.usize_below(4) };
             let mut args = vec![];
+            // argument ids are not always 1..n in declaration order: gaps (a removed argument),
+            // a first id other than 1, and declaration order different from id order
+            let mut aid = if mi == 0 || g.rng.chance(1, 3) { 1 + g.rng.below(3) as i16 } else { 0 };
             for a in 0..na {
+                aid += if (mi == 0 && a == 1) || g.rng.chance(1, 3) { 2 + g.rng.below(2) as i16 } else { 1 };
                 let req = if g.rng.chance(1, 4) { Req::Optional } else { Req::Required };
-                args.push(Field { id: (a + 1) as i16, name: format!("a{}", a + 1), req, ty: svc_ty(&mut g, &mut arg_pool), default: None, annots: vec![] });
+                args.push(Field { id: aid, name: format!("a{}", a + 1), req, ty: svc_ty(&mut g, &mut arg_pool), default: None, annots: vec![] });
+            }
+            if na >= 2 && (mi == 2 || g.rng.chance(1, 3)) {
+                args.reverse();
             }
             let mut throws = vec![];
             // the first method that can throw does (every corpus exercises a throws clause)
